@@ -227,4 +227,180 @@ theorem removeMark_fail (n : Nat) (w : Wid) (P : PStore) (V : PVol)
     · rw [if_pos hs]; exact ⟨rfl, rfl⟩
     · rw [if_neg hs] at hok; cases hok
 
+-- ------------------------------------------------------------------ 4. one iteration through the persistence model
+
+/-- what a removal step does to the status table: nothing, unless it finishes — then the entry of `w` goes -/
+theorem removeStep_model_status {limit : Nat} {c : Ctx} {w : Wid} {addrs : List Addr} {s : Store}
+    {o : Model.Remove.StepOut} (hne : addrs ≠ []) (h : Model.Remove.removeStep limit c w addrs s = some o) :
+    (o.finish = false → o.s.status = s.status) ∧ (o.finish = true → o.s.status = AMap.erase s.status w) := by
+  have key : ∀ o1, Model.Remove.removeRelevantTx limit c s addrs = some o1 → o1.s.status = s.status := by
+    intro o1 hr
+    have := (MW.Lemmas.RemoveStep.removeRelevantTx_spec limit c s addrs o1 hne hr).ids
+    simp only [MW.Lemmas.RemoveStep.core, Prod.mk.injEq] at this
+    exact this.2.2.2.2.2.1
+  constructor
+  · intro hf
+    exact key o (MW.Lemmas.RemoveMain.removeStep_parked h hf)
+  · intro hf
+    obtain ⟨o1, hr, _, hos⟩ := MW.Lemmas.RemoveMain.removeStep_finish h hf
+    have e8 : o.s.status = AMap.erase o1.s.status w := by rw [hos]; rfl
+    rw [e8, key o1 hr]
+
+/-- THE REMOVAL HAS FINISHED: keystore bucket and cache entry of `w` are gone, so is its status; the ledger store
+    satisfies C01's invariant for the keystore table without `w`, every owner of an address of that table is ready,
+    and nobody else's readiness changed since `P0` -/
+structure RemDone (st : Static) (ks : AMap.T Wid KsRec) (w : Wid) (chain X : List Block) (P0 P' : PStore) (V' : PVol) :
+    Prop where
+  pks : P'.ks = AMap.erase ks w
+  vkeys : V'.keys = AMap.erase ks w
+  gone : AMap.get P'.led.status w = none
+  inv : MW.Lemmas.Ledger.Inv ((lenv st (AMap.erase ks w)).ctx chain) P'.led X
+  allReady : AllReady (ownOf (AMap.erase ks w)) (readyWallets P'.led (walletsOf (AMap.erase ks w)))
+  others : ∀ w', w' ≠ w → readyB P'.led w' = readyB P0.led w'
+
+/-- `RemDone` only looks at the status table of the store it started from -/
+theorem RemDone.from_status {st : Static} {ks : AMap.T Wid KsRec} {w : Wid} {chain X : List Block} {P0 P1 P' : PStore}
+    {V' : PVol} (h : RemDone st ks w chain X P1 P' V') (hs : P1.led.status = P0.led.status) :
+    RemDone st ks w chain X P0 P' V' :=
+  ⟨h.pks, h.vkeys, h.gone, h.inv, h.allReady, fun w' hw' => by
+    rw [h.others w' hw']; unfold readyB; rw [hs]⟩
+
+/-- ONE ITERATION of the worker's removal, from a state in which the wallet is stored and cached, the removal is in
+    progress (`Mid`), the wallet's status entry is still there and every OTHER owner of an address is ready:
+    (a) a failed iteration changes neither the store nor the volatile state;
+    (b) one that succeeds without finishing keeps keystore, key cache, task queue, tip copy and the status table,
+        and `Mid` holds again;
+    (c) the finishing one reaches `RemDone`. -/
+theorem removeStep_mid {st : Static} {ks : AMap.T Wid KsRec} {w : Wid} {r : KsRec} {chain X : List Block}
+    (limit nR : Nat) {P : PStore} {V : PVol} {stt : WStatus}
+    (hks : P.ks = ks) (hkeys : V.keys = ks) (hr : AMap.get ks w = some r)
+    (H : MW.Lemmas.RemoveInv.RemHyp ((lenv st ks).ctx chain) w (addrsOf ks w) (ownOf (AMap.erase ks w)) X)
+    (hM : MW.Lemmas.RemoveInv.Mid ((lenv st ks).ctx chain) w (addrsOf ks w) (ownOf (AMap.erase ks w)) P.led X)
+    (hst : AMap.get P.led.status w = some stt)
+    (hOth : ∀ a w' ch, AMap.get (ownOf ks) a = some (w', ch) → w' ≠ w → readyB P.led w' = true)
+    (res : Res) (hres : res = (opRemoveStep limit nR (envAt st chain) w (addrsOf V.keys w)).run none P V) :
+    (res.ok = false → res.P = P ∧ res.V = V) ∧
+    (res.ok = true → removeDone res.P w = false →
+      res.P.ks = ks ∧ res.V.keys = ks ∧ res.V.tasks = V.tasks ∧ res.V.led.best = V.led.best ∧
+      MW.Lemmas.RemoveInv.Mid ((lenv st ks).ctx chain) w (addrsOf ks w) (ownOf (AMap.erase ks w)) res.P.led X ∧
+      res.P.led.status = P.led.status) ∧
+    (res.ok = true → removeDone res.P w = true →
+      RemDone st ks w chain X P res.P res.V ∧ res.V.tasks = V.tasks ∧ res.V.led.best = V.led.best) := by
+  have hrP : AMap.get P.ks w = some r := by rw [hks]; exact hr
+  have hrV : AMap.get V.keys w = some r := by rw [hkeys]; exact hr
+  have hcl := removeStep_none limit nR (envAt st chain) w (addrsOf ks w) P V r r hrP hrV
+  rw [ctx_eq, hkeys] at hcl
+  rw [hkeys] at hres
+  rw [← hres] at hcl
+  clear hres
+  cases hs : Model.Remove.removeStep limit ((lenv st ks).ctx chain) w (addrsOf ks w) P.led with
+  | none =>
+    rw [hs] at hcl
+    simp only at hcl
+    rw [hcl]
+    exact ⟨fun _ => ⟨rfl, rfl⟩, fun h => (by cases h), fun h => (by cases h)⟩
+  | some o =>
+    rw [hs] at hcl
+    simp only at hcl
+    obtain ⟨hnf, hf⟩ := removeStep_model_status H.ne hs
+    by_cases hfin : o.finish = true
+    · rw [if_pos hfin] at hcl
+      rw [hcl]
+      have hstat := hf hfin
+      have hgone : AMap.get o.s.status w = none := by rw [hstat, AMap.get_erase]; simp
+      refine ⟨fun h => (by cases h), fun _ hd => ?_, fun _ _ => ⟨⟨?_, ?_, hgone, ?_, ?_, ?_⟩, rfl, rfl⟩⟩
+      · exfalso
+        have : removeDone ({ led := o.s, ks := AMap.erase P.ks w } : PStore) w = true := by
+          unfold removeDone; rw [hgone]; rfl
+        rw [this] at hd; cases hd
+      · show AMap.erase P.ks w = _; rw [hks]
+      · show AMap.erase V.keys w = _; rw [hkeys]
+      · exact MW.Lemmas.RemoveMain.finish_projects limit H hM (walletsOf (AMap.erase ks w))
+          (fun x hx => (mem_walletsOf_erase.1 hx).1) hs hfin
+      · refine MW.Lemmas.RemoveMain.finish_allReady limit H (walletsOf (AMap.erase ks w)) ?_ hs hfin
+        intro a w' ch hg hne
+        exact mem_readyWallets.2 ⟨mem_walletsOf_erase.2 ⟨(own_wallet_mem (amap_mem_of_get hg)).1, hne⟩,
+          hOth a w' ch hg hne⟩
+      · intro w' hw'
+        show readyB o.s w' = readyB P.led w'
+        unfold readyB
+        rw [hstat, AMap.get_erase, if_neg (fun e => hw' e.symm)]
+    · have hfin' : o.finish = false := by simpa using hfin
+      rw [if_neg hfin] at hcl
+      rw [hcl]
+      have hstat := hnf hfin'
+      refine ⟨fun h => (by cases h), fun _ _ => ⟨hks, rfl, rfl, rfl, ?_, hstat⟩, fun _ hd => ?_⟩
+      · exact MW.Lemmas.RemoveMain.parked_step limit H hM hs hfin'
+      · exfalso
+        have : removeDone ({ led := o.s, ks := P.ks } : PStore) w = false := by
+          unfold removeDone; rw [hstat, hst]; rfl
+        rw [this] at hd; cases hd
+
+-- ------------------------------------------------------------------ 5. the worker loop
+
+theorem readyB_of_status {s s' : Store} (h : s'.status = s.status) (w : Wid) : readyB s' w = readyB s w := by
+  unfold readyB; rw [h]
+
+/-- THE WORKER LOOP of a removal, however many iterations it takes (while nothing else happens): if it comes to an
+    end, it ends in `RemDone`; task queue and tip copy are what they were -/
+theorem removeLoop_done {st : Static} {ks : AMap.T Wid KsRec} {w : Wid} {r : KsRec} {chain X : List Block}
+    (limit nR : Nat) (hr : AMap.get ks w = some r)
+    (H : MW.Lemmas.RemoveInv.RemHyp ((lenv st ks).ctx chain) w (addrsOf ks w) (ownOf (AMap.erase ks w)) X) :
+    ∀ (fuel : Nat) {P : PStore} {V : PVol} {stt : WStatus} {P' : PStore} {V' : PVol},
+    P.ks = ks → V.keys = ks →
+    MW.Lemmas.RemoveInv.Mid ((lenv st ks).ctx chain) w (addrsOf ks w) (ownOf (AMap.erase ks w)) P.led X →
+    AMap.get P.led.status w = some stt →
+    (∀ a w' ch, AMap.get (ownOf ks) a = some (w', ch) → w' ≠ w → readyB P.led w' = true) →
+    removeLoop limit nR (envAt st chain) w (addrsOf ks w) fuel P V = some (P', V') →
+    RemDone st ks w chain X P P' V' ∧ V'.tasks = V.tasks ∧ V'.led.best = V.led.best := by
+  intro fuel
+  induction fuel with
+  | zero => intro P V stt P' V' _ _ _ _ _ h; cases h
+  | succ f ih =>
+    intro P V stt P' V' hks hkeys hM hst hOth h
+    rw [removeLoop_succ] at h
+    obtain ⟨_, hb, hc⟩ := removeStep_mid limit nR hks hkeys hr H hM hst hOth
+      ((opRemoveStep limit nR (envAt st chain) w (addrsOf ks w)).run none P V) (by rw [hkeys])
+    generalize (opRemoveStep limit nR (envAt st chain) w (addrsOf ks w)).run none P V = res at h hb hc
+    by_cases hok : res.ok = true
+    · simp only [hok, Bool.not_true, Bool.false_eq_true, if_false] at h
+      by_cases hd : removeDone res.P w = true
+      · simp only [hd, if_true, Option.some.injEq, Prod.mk.injEq] at h
+        rw [← h.1, ← h.2]
+        exact hc hok hd
+      · have hd' : removeDone res.P w = false := by simpa using hd
+        simp only [hd', Bool.false_eq_true, if_false] at h
+        obtain ⟨k1, k2, k3, k4, k5, k6⟩ := hb hok hd'
+        obtain ⟨d, t, b⟩ := ih (stt := stt) k1 k2 k5 (by rw [k6]; exact hst)
+          (fun a w' ch hg hne => by rw [readyB_of_status k6]; exact hOth a w' ch hg hne) h
+        exact ⟨d.from_status k6, t.trans k3, b.trans k4⟩
+    · have hok' : res.ok = false := by simpa using hok
+      simp [hok'] at h
+
+/-- the same from C01's invariant and RemoveWallet's flag: the flag, then the worker loop -/
+theorem removeMark_loop_done {st : Static} {G : Block} {ks : AMap.T Wid KsRec} {w : Wid} {r : KsRec} {chain X : List Block}
+    (limit nR n : Nat) {P : PStore} {V : PVol} {P' : PStore} {V' : PVol} (fuel : Nat)
+    (hX : ChainOK (lenv st ks) G X) (hKN : KeysNodup (ownOf ks)) (hnw : (walletsOf ks).Nodup)
+    (hr : AMap.get ks w = some r) (hne : r.addrs ≠ [])
+    (hks : P.ks = ks) (hkeys : V.keys = ks)
+    (hI : MW.Lemmas.Ledger.Inv ((lenv st ks).ctx chain) P.led X) (hn : KeysNodup P.led.credits)
+    (hp : ∀ e ∈ P.led.pendCred, e.1.1 ∉ idsOf (occs X))
+    (hOth : ∀ a w' ch, AMap.get (ownOf ks) a = some (w', ch) → w' ≠ w → readyB P.led w' = true)
+    (hok : ((opRemoveMark n w).run none P V).ok = true)
+    (h : removeLoop limit nR (envAt st chain) w (addrsOf ks w) fuel ((opRemoveMark n w).run none P V).P
+      ((opRemoveMark n w).run none P V).V = some (P', V')) :
+    RemDone st ks w chain X P P' V' ∧ V'.tasks = V.tasks ++ [.rem w] ∧ V'.led.best = V.led.best ∧
+      ChainOK (lenv st (AMap.erase ks w)) G X := by
+  have H := remHyp_of (chain := chain) hX hKN hnw hr hne
+  obtain ⟨stt, hst, _, eP, eV, hM, hoth, _⟩ := removeMark_run_mid H n V hI hn hp hok
+  rw [eP, eV] at h
+  rw [eP] at hM hoth
+  obtain ⟨d, t, b⟩ := removeLoop_done limit nR hr H fuel (P := { P with led := markedLed P.led w stt })
+    (V := { V with tasks := V.tasks ++ [.rem w] }) (stt := { stt with removed := true }) hks hkeys hM
+    (by show AMap.get (AMap.put P.led.status w _) w = _; rw [AMap.get_put, if_pos rfl])
+    (fun a w' ch hg hne' => by rw [hoth w' hne']; exact hOth a w' ch hg hne') h
+  refine ⟨⟨d.pks, d.vkeys, d.gone, d.inv, d.allReady, fun w' hw' => ?_⟩, t, b, chainOK_erase hKN w hX⟩
+  rw [d.others w' hw']
+  exact hoth w' hw'
+
 end MW.Lemmas.Deepen4
